@@ -18,8 +18,9 @@ func (x *Exec) execInstr(fr *Frame, instr ssa.Instruction) {
 			fr.env[in] = &PtrV{T: in.Type(), Kind: PArr, Base: arr, Root: et}
 			break
 		}
-		if !in.Heap {
-			// a local whose address does not escape: private heap family, invisible to contracts and frames
+		if !in.Heap || privateAlloc(in) {
+			// a local whose address does not escape (or escapes only into closures that this function itself calls
+			// or defers): private heap family, invisible to contracts, frames and "modifies anything" 
 			fr.env[in] = x.allocObjIn(et, in.Type(), true, "local:"+typeKey(et))
 			break
 		}
@@ -746,4 +747,54 @@ func (x *Exec) zeroElems(sv *SliceV) {
 		x.st.heap[l.key] = x.sc.def(store(h, sv.Arr, inner), "H")
 	}
 	_ = p
+}
+
+// privateAlloc: the variable's address is used only by loads/stores/field accesses and as a binding of closures
+// that are themselves only called or deferred here (never passed on as values).
+func privateAlloc(a *ssa.Alloc) bool {
+	var addrOK func(v ssa.Value, depth int) bool
+	addrOK = func(v ssa.Value, depth int) bool {
+		if depth > 6 || v.Referrers() == nil {
+			return false
+		}
+		for _, r := range *v.Referrers() {
+			switch r := r.(type) {
+			case *ssa.Store:
+				if r.Addr != v {
+					return false // the address itself is stored somewhere
+				}
+			case *ssa.UnOp, *ssa.DebugRef:
+			case *ssa.FieldAddr:
+				if !addrOK(r, depth+1) {
+					return false
+				}
+			case *ssa.IndexAddr:
+				if !addrOK(r, depth+1) {
+					return false
+				}
+			case *ssa.MakeClosure:
+				if r.Referrers() == nil {
+					return false
+				}
+				for _, cr := range *r.Referrers() {
+					switch cr := cr.(type) {
+					case *ssa.Defer:
+						if cr.Call.Value != ssa.Value(r) {
+							return false
+						}
+					case *ssa.Call:
+						if cr.Call.Value != ssa.Value(r) {
+							return false
+						}
+					default:
+						return false
+					}
+				}
+			default:
+				return false
+			}
+		}
+		return true
+	}
+	return addrOK(a, 0)
 }
